@@ -15,10 +15,12 @@ pub mod c10_lab;
 pub mod c11;
 pub mod c12;
 pub mod c13;
+pub mod c13_h2;
 pub mod c14;
 pub mod c15;
 pub mod c15_conn;
 pub mod c16;
+pub mod c16_lab;
 pub mod c17;
 pub mod c17_lab;
 pub mod c18;
